@@ -1,3 +1,1376 @@
-use crate::common::{Args, engine_error};
+//! C13 — "File checkers detect exactly what they document; stamp routes agree".
+//!
+//! Technique: exhaustive enumeration of a finite alphabet of path states on the REAL file system with the real
+//! `ExistsChecker`, `ModifiedChecker`, `HashChecker`, `Resource for PathBuf` and a real `Pie`'s resource state.
+//!
+//! Alphabet: `Absent`; `File(size, variant, mtime)`; `Dir(names, mtime)` with modification times set explicitly to one
+//! of two fixed instants (no sleeping, no dependence on timer granularity). Every state is materialised by removing
+//! whatever is at the path, creating the new state, and setting the mtime last.
+//!
+//! Phases (all exhaustive over the tier's alphabet, smallest states first):
+//! * `write-open`: `path.write` on every prior state (creates / truncates + readable+writable handle / refuses dir).
+//! * `untouched`: stamp by every route, check immediately without touching the path => consistent.
+//! * `pair`: every ordered pair (S1 when stamped, S2 when checked) x 3 checkers x routes
+//!   (path; fresh reader; writer that just produced the state; writer whose file was removed => Absent stamp).
+//! * `seq`: all length-3 sequences S1,S2,S3 (thorough: full alphabet; quick: a 19-state core alphabet); every state
+//!   is produced the way a task would (file: through a pie writer over the previous state; absent: writer created,
+//!   file removed), stamped by every route of every checker, and stamps from every earlier state are checked at
+//!   every later one.
+//!
+//! Directory states of the pair / seq phases are pre-built once per worker (entries created in a fresh directory) and
+//! moved to the path with a same-directory `rename` (`mkdir`+`rmdir` cost ~0.5 ms here); the write-open phase and
+//! the preflight build them in place. Each worker owns a private sub-directory of `/verif/tmp/c13-<pid>` and a
+//! private `Pie`; the scratch directory is removed at the end of the run, also on failure paths.
+//!
+//! Nothing here is sampled; there is no randomness. Harness-side I/O failures are engine errors (exit 3).
 
-pub fn run(_args: &Args) -> i32 { engine_error("not implemented yet") }
+use std::collections::{BTreeMap, BTreeSet};
+use std::fs::{self, File};
+use std::io::{self, Read, Seek, Write};
+use std::panic::{catch_unwind, AssertUnwindSafe};
+use std::path::{Path, PathBuf};
+use std::sync::atomic::{AtomicBool, AtomicUsize, Ordering};
+use std::sync::Mutex;
+use std::time::{Duration, Instant, SystemTime, UNIX_EPOCH};
+
+use pie::resource::file::hash_checker::HashChecker;
+use pie::resource::file::{ExistsChecker, FsError, ModifiedChecker, OpenRead};
+use pie::{Pie, Resource, ResourceChecker};
+use serde_json::{json, Value};
+
+use crate::common::{engine_error, Args, Report, Tier, Violation, VERIF_DIR};
+
+// ---------------------------------------------------------------------------------------------------------------------
+// Alphabet
+// ---------------------------------------------------------------------------------------------------------------------
+
+const QUICK_SIZES: &[usize] = &[0, 1, 8192, 8193];
+const FULL_SIZES: &[usize] = &[0, 1, 8191, 8192, 8193, 16384, 24577];
+const NAME_POOL: &[&str] = &["a", "b", "c", "ab", "ba", "bc"];
+const MAX_NAMES: usize = 3;
+/// The two explicit modification instants (whole seconds: representable on every file system).
+const T_SECS: [u64; 2] = [1_000_000_000, 1_500_000_000];
+
+fn instant(mt: u8) -> SystemTime { UNIX_EPOCH + Duration::from_secs(T_SECS[mt as usize]) }
+fn mt_name(mt: u8) -> &'static str { if mt == 0 { "T1" } else { "T2" } }
+
+/// Content variant of a file state.
+#[derive(Clone, Copy, PartialEq, Eq, PartialOrd, Ord, Hash, Debug)]
+pub enum Variant { Base, LastDiffers, FirstDiffers }
+
+impl Variant {
+  fn as_str(self) -> &'static str {
+    match self { Variant::Base => "base", Variant::LastDiffers => "last-byte-differs", Variant::FirstDiffers => "first-byte-differs" }
+  }
+  fn parse(s: &str) -> Option<Self> {
+    match s { "base" => Some(Variant::Base), "last-byte-differs" => Some(Variant::LastDiffers), "first-byte-differs" => Some(Variant::FirstDiffers), _ => None }
+  }
+}
+
+/// One state of the path.
+#[derive(Clone, PartialEq, Eq, PartialOrd, Ord, Hash, Debug)]
+pub enum St {
+  Absent,
+  File { size: usize, var: Variant, mt: u8 },
+  /// `names` is sorted and duplicate free; entries are created in this order as empty files.
+  Dir { names: Vec<String>, mt: u8 },
+}
+
+#[derive(Clone, Copy, PartialEq, Eq, PartialOrd, Ord, Hash, Debug)]
+pub enum Kind { Absent, File, Dir }
+
+impl Kind { fn as_str(self) -> &'static str { match self { Kind::Absent => "absent", Kind::File => "file", Kind::Dir => "dir" } } }
+
+impl St {
+  pub fn kind(&self) -> Kind { match self { St::Absent => Kind::Absent, St::File { .. } => Kind::File, St::Dir { .. } => Kind::Dir } }
+  pub fn exists(&self) -> bool { !matches!(self, St::Absent) }
+  pub fn mtime(&self) -> Option<u8> { match self { St::Absent => None, St::File { mt, .. } | St::Dir { mt, .. } => Some(*mt) } }
+  /// File content (None for non-files).
+  pub fn content(&self) -> Option<Vec<u8>> {
+    match self { St::File { size, var, .. } => Some(content(*size, *var)), _ => None }
+  }
+  pub fn to_json(&self) -> Value {
+    match self {
+      St::Absent => json!({"kind": "absent"}),
+      St::File { size, var, mt } => json!({"kind": "file", "size": size, "variant": var.as_str(), "mtime": mt_name(*mt)}),
+      St::Dir { names, mt } => json!({"kind": "dir", "names": names, "mtime": mt_name(*mt)}),
+    }
+  }
+  pub fn from_json(v: &Value) -> Result<St, String> {
+    let mt = |v: &Value| -> Result<u8, String> {
+      match v.get("mtime").and_then(|m| m.as_str()) { Some("T1") => Ok(0), Some("T2") => Ok(1), o => Err(format!("bad mtime {:?}", o)) }
+    };
+    match v.get("kind").and_then(|k| k.as_str()) {
+      Some("absent") => Ok(St::Absent),
+      Some("file") => {
+        let size = v.get("size").and_then(|s| s.as_u64()).ok_or("file state without size")? as usize;
+        if size > (1 << 26) { return Err("file size too large".into()); }
+        let var = v.get("variant").and_then(|s| s.as_str()).and_then(Variant::parse).ok_or("bad variant")?;
+        if (size == 0 && var != Variant::Base) || (size == 1 && var == Variant::FirstDiffers) {
+          return Err("variant not available at this size".into());
+        }
+        Ok(St::File { size, var, mt: mt(v)? })
+      }
+      Some("dir") => {
+        let arr = v.get("names").and_then(|n| n.as_array()).ok_or("dir state without names")?;
+        let mut names = Vec::new();
+        for n in arr {
+          let n = n.as_str().ok_or("name not a string")?;
+          if n.is_empty() || n == "." || n == ".." || n.contains('/') || n.contains('\0') { return Err(format!("bad entry name {:?}", n)); }
+          names.push(n.to_string());
+        }
+        names.sort();
+        names.dedup();
+        Ok(St::Dir { names, mt: mt(v)? })
+      }
+      o => Err(format!("bad state kind {:?}", o)),
+    }
+  }
+}
+
+/// Deterministic content: a base pattern without short periods; variants flip the last / first byte.
+pub fn content(size: usize, var: Variant) -> Vec<u8> {
+  let mut v: Vec<u8> = (0..size).map(|i| ((i.wrapping_mul(31).wrapping_add(i >> 8).wrapping_add(7)) % 251) as u8).collect();
+  match var {
+    Variant::Base => {}
+    Variant::LastDiffers => if let Some(b) = v.last_mut() { *b ^= 0xFF },
+    Variant::FirstDiffers => if let Some(b) = v.first_mut() { *b ^= 0xFF },
+  }
+  v
+}
+
+/// All subsets of at most `MAX_NAMES` names of the pool, smallest first (count, total length, lexicographic).
+pub fn name_sets() -> Vec<Vec<String>> {
+  let n = NAME_POOL.len();
+  let mut sets: Vec<Vec<String>> = Vec::new();
+  for mask in 0u32..(1 << n) {
+    if mask.count_ones() as usize > MAX_NAMES { continue; }
+    let mut s: Vec<String> = (0..n).filter(|i| mask & (1 << i) != 0).map(|i| NAME_POOL[i].to_string()).collect();
+    s.sort();
+    sets.push(s);
+  }
+  sets.sort_by_key(|s| (s.len(), s.iter().map(|x| x.len()).sum::<usize>(), s.clone()));
+  sets
+}
+
+/// The alphabet of path states, smallest first.
+pub fn alphabet(sizes: &[usize], sets: &[Vec<String>]) -> Vec<St> {
+  let mut out = vec![St::Absent];
+  for &size in sizes {
+    let vars: &[Variant] = match size {
+      0 => &[Variant::Base],
+      1 => &[Variant::Base, Variant::LastDiffers],
+      _ => &[Variant::Base, Variant::LastDiffers, Variant::FirstDiffers],
+    };
+    for &var in vars { for mt in 0..2u8 { out.push(St::File { size, var, mt }); } }
+  }
+  for names in sets { for mt in 0..2u8 { out.push(St::Dir { names: names.clone(), mt }); } }
+  out
+}
+
+/// Small alphabet for the quick tier's length-3 sequences.
+fn core_alphabet() -> Vec<St> {
+  let mut out = alphabet(&[0, 1, 8193], &[]);
+  let d = |names: &[&str], mt: u8| St::Dir { names: names.iter().map(|s| s.to_string()).collect(), mt };
+  out.extend([d(&[], 0), d(&["a"], 0), d(&["a"], 1), d(&["ab"], 0), d(&["ba"], 0), d(&["a", "b"], 0)]);
+  out
+}
+
+// ---------------------------------------------------------------------------------------------------------------------
+// Reference relations
+// ---------------------------------------------------------------------------------------------------------------------
+
+#[derive(Clone, Copy, PartialEq, Eq, PartialOrd, Ord, Hash, Debug)]
+pub enum Ck { Exists, Modified, Hash }
+
+impl Ck {
+  pub const ALL: [Ck; 3] = [Ck::Exists, Ck::Modified, Ck::Hash];
+  fn as_str(self) -> &'static str { match self { Ck::Exists => "ExistsChecker", Ck::Modified => "ModifiedChecker", Ck::Hash => "HashChecker" } }
+  fn parse(s: &str) -> Option<Ck> { Ck::ALL.into_iter().find(|c| c.as_str() == s) }
+}
+
+#[derive(Clone, Copy, PartialEq, Eq, PartialOrd, Ord, Hash, Debug)]
+pub enum Route { Path, Reader, Writer, WriterRemoved }
+
+impl Route {
+  fn as_str(self) -> &'static str {
+    match self { Route::Path => "path", Route::Reader => "reader", Route::Writer => "writer", Route::WriterRemoved => "writer-removed" }
+  }
+  fn parse(s: &str) -> Option<Route> {
+    [Route::Path, Route::Reader, Route::Writer, Route::WriterRemoved].into_iter().find(|r| r.as_str() == s)
+  }
+  /// Does this route apply to a state of this kind? (writer: the task wrote the file; writer-removed: the task
+  /// removed the file after creating the writer, so the state is Absent.)
+  fn applies(self, k: Kind) -> bool {
+    match self { Route::Path | Route::Reader => true, Route::Writer => k == Kind::File, Route::WriterRemoved => k == Kind::Absent }
+  }
+}
+
+/// What the property claims about `check(stamp of s1)` evaluated in `s2`.
+#[derive(Clone, Copy, PartialEq, Eq, PartialOrd, Ord, Hash, Debug)]
+pub enum Expect {
+  Consistent,
+  Inconsistent,
+  /// Directory with the same name set, re-created: consistent is expected, but an inconsistent verdict caused by a
+  /// different `read_dir` order is not claimed by the property (only "untouched => consistent" is).
+  ConsistentUnlessReordered,
+  /// Hash checker, change of kind between file and directory: not claimed.
+  NotClaimed,
+}
+
+impl Expect {
+  fn as_str(self) -> &'static str {
+    match self {
+      Expect::Consistent => "consistent", Expect::Inconsistent => "inconsistent",
+      Expect::ConsistentUnlessReordered => "consistent (not judged if inconsistent: re-created directory)",
+      Expect::NotClaimed => "not claimed",
+    }
+  }
+}
+
+/// The reference relation. `untouched`: the path was not touched between stamp and check (then `s1 == s2`).
+pub fn reference(ck: Ck, s1: &St, s2: &St, untouched: bool) -> (Expect, &'static str) {
+  if untouched {
+    debug_assert!(s1 == s2);
+    return (Expect::Consistent, "C13/untouched-consistent");
+  }
+  match ck {
+    Ck::Exists => (if s1.exists() == s2.exists() { Expect::Consistent } else { Expect::Inconsistent }, "C13/exists"),
+    Ck::Modified => {
+      let c = match (s1.mtime(), s2.mtime()) { (None, None) => true, (Some(a), Some(b)) => a == b, _ => false };
+      (if c { Expect::Consistent } else { Expect::Inconsistent }, "C13/modified")
+    }
+    Ck::Hash => match (s1, s2) {
+      (St::Absent, St::Absent) => (Expect::Consistent, "C13/hash-absent"),
+      (St::Absent, _) | (_, St::Absent) => (Expect::Inconsistent, "C13/hash-absent"),
+      (St::File { size: a, var: va, .. }, St::File { size: b, var: vb, .. }) => {
+        // Variants of one size have pairwise different contents by construction (unit test `contents_differ_..`).
+        let eq = a == b && va == vb;
+        (if eq { Expect::Consistent } else { Expect::Inconsistent }, "C13/hash-file-content")
+      }
+      (St::Dir { names: a, .. }, St::Dir { names: b, .. }) => {
+        if a == b { (Expect::ConsistentUnlessReordered, "C13/hash-dir-same-nameset") } else { (Expect::Inconsistent, "C13/hash-dir-nameset") }
+      }
+      _ => (Expect::NotClaimed, "C13/hash-kind-change"),
+    },
+  }
+}
+
+#[derive(Clone, Copy, PartialEq, Eq, Debug)]
+pub enum Verdict { Agree, Violation, NotJudged }
+
+pub fn judge(expect: Expect, observed_consistent: bool) -> Verdict {
+  match (expect, observed_consistent) {
+    (Expect::Consistent, true) | (Expect::Inconsistent, false) | (Expect::ConsistentUnlessReordered, true) => Verdict::Agree,
+    (Expect::Consistent, false) | (Expect::Inconsistent, true) => Verdict::Violation,
+    (Expect::ConsistentUnlessReordered, false) | (Expect::NotClaimed, _) => Verdict::NotJudged,
+  }
+}
+
+// ---------------------------------------------------------------------------------------------------------------------
+// Tallies, findings
+// ---------------------------------------------------------------------------------------------------------------------
+
+/// Harness-side result: `Err` is an engine error (never a verdict).
+type H<T> = Result<T, String>;
+
+#[derive(Clone, Debug)]
+struct Finding { order: (u64, u64), oracle: &'static str, what: String, replay: Value }
+
+const OUT_CONSISTENT: usize = 0;
+const OUT_INCONSISTENT: usize = 1;
+const OUT_NOT_JUDGED: usize = 2;
+
+#[derive(Default)]
+struct Tally {
+  /// All oracle evaluations (reference comparisons, route agreement, reader position, read variant, write-open).
+  evaluations: u64,
+  per_oracle: BTreeMap<&'static str, u64>,
+  /// Judged (S1,S2,checker,route) cases of the pair phase.
+  pair_judged: u64,
+  /// All cases where the reference relation was compared with the real checker's verdict (all phases).
+  judged: u64,
+  /// Cases evaluated but not judged (not claimed by the property).
+  not_judged: u64,
+  /// Judged cases with S1 != S2.
+  nontrivial: u64,
+  /// [checker][consistent / inconsistent / not judged] as observed from the real checker.
+  outcomes: [[u64; 3]; 3],
+  /// Same name set, re-created directory, hash checker said inconsistent (not claimed; counted only).
+  recreated_dir_inconsistent: u64,
+  recreated_dir_consistent: u64,
+  /// Hash checker, file<->dir: observed verdicts (never judged).
+  kind_change: [u64; 2],
+  states: BTreeSet<St>,
+  materialisations: u64,
+  findings: Vec<Finding>,
+  findings_dropped: u64,
+  /// Distinct colliding name-set pairs (hash checker consistent although the name sets differ).
+  collisions: BTreeSet<(Vec<String>, Vec<String>)>,
+  samples: BTreeMap<(u8, Ck, Kind, Kind, Expect), ((u64, u64), Value)>,
+  items_done: BTreeMap<&'static str, u64>,
+  /// CPU-side accounting (summed over workers): time in state materialisation and in calls into pie.
+  t_materialise: Duration,
+  t_pie: Duration,
+}
+
+impl Tally {
+  fn eval(&mut self, oracle: &'static str) {
+    self.evaluations += 1;
+    *self.per_oracle.entry(oracle).or_insert(0) += 1;
+  }
+  fn merge(&mut self, o: Tally) {
+    self.evaluations += o.evaluations;
+    for (k, v) in o.per_oracle { *self.per_oracle.entry(k).or_insert(0) += v; }
+    self.pair_judged += o.pair_judged;
+    self.judged += o.judged;
+    self.not_judged += o.not_judged;
+    self.nontrivial += o.nontrivial;
+    for c in 0..3 { for k in 0..3 { self.outcomes[c][k] += o.outcomes[c][k]; } }
+    self.recreated_dir_inconsistent += o.recreated_dir_inconsistent;
+    self.recreated_dir_consistent += o.recreated_dir_consistent;
+    self.kind_change[0] += o.kind_change[0];
+    self.kind_change[1] += o.kind_change[1];
+    self.states.extend(o.states);
+    self.materialisations += o.materialisations;
+    self.findings.extend(o.findings);
+    self.findings_dropped += o.findings_dropped;
+    self.collisions.extend(o.collisions);
+    for (k, v) in o.samples {
+      match self.samples.get(&k) { Some(old) if old.0 <= v.0 => {} _ => { self.samples.insert(k, v); } }
+    }
+    for (k, v) in o.items_done { *self.items_done.entry(k).or_insert(0) += v; }
+    self.t_materialise += o.t_materialise;
+    self.t_pie += o.t_pie;
+  }
+}
+
+/// Per-oracle cap of findings kept per worker (the smallest ones: work is handed out in increasing order).
+const FINDINGS_PER_ORACLE_PER_WORKER: usize = 6;
+
+// ---------------------------------------------------------------------------------------------------------------------
+// Worker context: private directory, real Pie, materialisation
+// ---------------------------------------------------------------------------------------------------------------------
+
+struct Ctx {
+  path: PathBuf,
+  pie: Pie<()>,
+  tally: Tally,
+  /// Sort key of the unit being run (phase rank, index in phase).
+  order: (u64, u64),
+  /// Checker of the case being run (for replay objects of sequence units).
+  ck: Option<Ck>,
+  /// Replay mode: every observation, for the determinism comparison.
+  observations: Option<Vec<String>>,
+  content_cache: BTreeMap<(usize, Variant), Vec<u8>>,
+  /// Pool of pre-built directories (one per name set, entries created once in a fresh directory), moved to the path
+  /// with `rename` and moved back when the state is left: `mkdir`/`rmdir` cost ~0.5 ms each on this file system.
+  pool_dir: PathBuf,
+  pool: BTreeMap<Vec<String>, PathBuf>,
+  /// The pooled directory currently sitting at the path.
+  at_path: Option<PathBuf>,
+}
+
+fn io_ctx<T>(r: io::Result<T>, what: &str, path: &Path) -> H<T> { r.map_err(|e| format!("{} {}: {}", what, path.display(), e)) }
+
+/// Runs pie code, turning a panic into `Err(message)`.
+fn guard<T>(f: impl FnOnce() -> T) -> Result<T, String> {
+  let t = Instant::now();
+  let r = catch_unwind(AssertUnwindSafe(f));
+  PIE_TIME.with(|c| c.set(c.get() + t.elapsed()));
+  r.map_err(|p| {
+    if let Some(s) = p.downcast_ref::<&str>() { s.to_string() } else if let Some(s) = p.downcast_ref::<String>() { s.clone() } else { "<non-string panic>".into() }
+  })
+}
+
+impl Ctx {
+  fn new(dir: &Path, replay: bool) -> H<Ctx> {
+    io_ctx(fs::create_dir_all(dir), "create scratch dir", dir)?;
+    Ok(Ctx {
+      path: dir.join("p"), pie: Pie::default(), tally: Tally::default(), order: (0, 0), ck: None,
+      observations: if replay { Some(Vec::new()) } else { None }, content_cache: BTreeMap::new(),
+      pool_dir: dir.to_path_buf(), pool: BTreeMap::new(), at_path: None,
+    })
+  }
+
+  fn observe(&mut self, f: impl FnOnce() -> String) { if let Some(o) = self.observations.as_mut() { o.push(f()); } }
+
+  fn content_of(&mut self, st: &St) -> Vec<u8> {
+    match st {
+      St::File { size, var, .. } => self.content_cache.entry((*size, *var)).or_insert_with(|| content(*size, *var)).clone(),
+      _ => Vec::new(),
+    }
+  }
+
+  fn finding(&mut self, oracle: &'static str, what: String, replay: Value) {
+    let n = self.tally.findings.iter().filter(|f| f.oracle == oracle).count();
+    if n >= FINDINGS_PER_ORACLE_PER_WORKER { self.tally.findings_dropped += 1; return; }
+    self.tally.findings.push(Finding { order: self.order, oracle, what, replay });
+  }
+
+  /// Removes whatever is at the path (a pooled directory goes back to the pool).
+  fn clear(&mut self) -> H<()> {
+    if let Some(home) = self.at_path.take() {
+      match fs::symlink_metadata(&self.path) {
+        Ok(m) if m.is_dir() => return io_ctx(fs::rename(&self.path, &home), "move dir back to pool", &self.path),
+        _ => return Err(format!("pooled directory vanished from {}", self.path.display())),
+      }
+    }
+    match fs::symlink_metadata(&self.path) {
+      Err(e) if e.kind() == io::ErrorKind::NotFound => Ok(()),
+      Err(e) => Err(format!("stat {}: {}", self.path.display(), e)),
+      Ok(m) if m.is_dir() => io_ctx(fs::remove_dir_all(&self.path), "remove dir", &self.path),
+      Ok(_) => io_ctx(fs::remove_file(&self.path), "remove file", &self.path),
+    }
+  }
+
+  fn build_dir(at: &Path, names: &[String]) -> H<()> {
+    io_ctx(fs::create_dir(at), "create dir", at)?;
+    for n in names { let p = at.join(n); io_ctx(File::create(&p), "create entry", &p)?; }
+    Ok(())
+  }
+
+  fn listing(at: &Path) -> H<Vec<String>> {
+    let mut l = Vec::new();
+    for e in io_ctx(fs::read_dir(at), "read_dir", at)? { l.push(io_ctx(e, "read_dir entry", at)?.file_name().to_string_lossy().into_owned()); }
+    l.sort();
+    Ok(l)
+  }
+
+  /// Materialises `st` with std::fs only: remove what is there, create the state, set the mtime last, read the mtime
+  /// back. `fresh_dir`: build the directory in place instead of moving a pre-built one (same content) to the path.
+  fn materialise_with(&mut self, st: &St, fresh_dir: bool) -> H<()> {
+    self.clear()?;
+    match st {
+      St::Absent => {}
+      St::File { mt, .. } => {
+        let bytes = self.content_of(st);
+        let mut f = io_ctx(File::create(&self.path), "create", &self.path)?;
+        io_ctx(f.write_all(&bytes), "write", &self.path)?;
+        io_ctx(f.set_modified(instant(*mt)), "set_modified (file)", &self.path)?;
+      }
+      St::Dir { names, mt } => {
+        if fresh_dir {
+          Self::build_dir(&self.path, names)?;
+        } else {
+          let home = match self.pool.get(names) {
+            Some(h) => h.clone(),
+            None => {
+              io_ctx(fs::create_dir_all(&self.pool_dir), "create pool", &self.pool_dir)?;
+              // Sibling of the path: a same-directory rename does not take the file-system wide rename lock.
+              let h = self.pool_dir.join(format!("pool-d{}", self.pool.len()));
+              Self::build_dir(&h, names)?;
+              self.pool.insert(names.clone(), h.clone());
+              h
+            }
+          };
+          io_ctx(fs::rename(&home, &self.path), "move pooled dir to path", &home)?;
+          self.at_path = Some(home);
+        }
+        let d = io_ctx(File::open(&self.path), "open dir", &self.path)?;
+        io_ctx(d.set_modified(instant(*mt)), "set_modified (dir)", &self.path)?;
+      }
+    }
+    self.verify_mtime(st)?;
+    self.tally.materialisations += 1;
+    if !self.tally.states.contains(st) { self.tally.states.insert(st.clone()); }
+    Ok(())
+  }
+
+  fn materialise(&mut self, st: &St) -> H<()> {
+    let t = Instant::now();
+    let r = self.materialise_with(st, false);
+    self.tally.t_materialise += t.elapsed();
+    r
+  }
+
+  /// End of a worker: every pooled directory still has exactly its entries (nothing the code under test did may have
+  /// changed them; if it did, the verdicts of this run are not trustworthy => engine error).
+  fn verify_pool(&mut self) -> H<()> {
+    self.clear()?;
+    for (names, home) in &self.pool {
+      let l = Self::listing(home)?;
+      if l != *names { return Err(format!("pooled directory {} holds {:?} instead of {:?}", home.display(), l, names)); }
+    }
+    Ok(())
+  }
+
+  fn verify_mtime(&self, st: &St) -> H<()> {
+    match (st.mtime(), fs::metadata(&self.path)) {
+      (None, Err(e)) if e.kind() == io::ErrorKind::NotFound => Ok(()),
+      (Some(mt), Ok(m)) => {
+        let got = io_ctx(m.modified(), "mtime", &self.path)?;
+        if got == instant(mt) { Ok(()) } else { Err(format!("explicit mtime not effective on {}: wanted {:?}, got {:?}", self.path.display(), instant(mt), got)) }
+      }
+      (want, got) => Err(format!("materialisation of {:?} failed: mtime wanted {:?}, metadata {:?}", st, want, got.map(|m| m.is_dir()))),
+    }
+  }
+}
+
+// ---------------------------------------------------------------------------------------------------------------------
+// Units of work (also the unit of replay)
+// ---------------------------------------------------------------------------------------------------------------------
+
+#[derive(Clone, Debug)]
+enum Unit {
+  /// `path.write` on a prior state.
+  WriteOpen { prior: St },
+  /// Stamp in `s1`, check in `s2` (`None`: untouched). `route: None` = every applicable route.
+  Pair { ck: Ck, s1: St, s2: Option<St>, route: Option<Route> },
+  /// Length-3 sequence; stamps of every earlier state are checked at every later one, all routes, all checkers
+  /// (each state is materialised once and observed by the three checkers).
+  Seq { states: [St; 3] },
+}
+
+const PHASE_WRITE_OPEN: u8 = 0;
+const PHASE_UNTOUCHED: u8 = 1;
+const PHASE_PAIR: u8 = 2;
+const PHASE_SEQ: u8 = 3;
+const PHASE_NAMES: [&str; 4] = ["write-open", "untouched", "pair", "seq"];
+
+impl Unit {
+  fn phase(&self) -> u8 {
+    match self {
+      Unit::WriteOpen { .. } => PHASE_WRITE_OPEN,
+      Unit::Pair { s2: None, .. } => PHASE_UNTOUCHED,
+      Unit::Pair { .. } => PHASE_PAIR,
+      Unit::Seq { .. } => PHASE_SEQ,
+    }
+  }
+
+  /// Replay object of one case of this unit.
+  fn replay(&self, seq_ck: Option<Ck>, route: Option<Route>, from_to: Option<(usize, usize)>, expected: &str, observed: &str) -> Value {
+    let mut m = serde_json::Map::new();
+    m.insert("phase".into(), json!(PHASE_NAMES[self.phase() as usize]));
+    match self {
+      Unit::WriteOpen { prior } => {
+        m.insert("checker".into(), Value::Null);
+        m.insert("route".into(), json!("write-open"));
+        m.insert("s1".into(), prior.to_json());
+        m.insert("s2".into(), Value::Null);
+      }
+      Unit::Pair { ck, s1, s2, .. } => {
+        m.insert("checker".into(), json!(ck.as_str()));
+        m.insert("route".into(), route.map_or(Value::Null, |r| json!(r.as_str())));
+        m.insert("s1".into(), s1.to_json());
+        m.insert("s2".into(), s2.as_ref().map_or(json!("untouched"), |s| s.to_json()));
+      }
+      Unit::Seq { states } => {
+        m.insert("checker".into(), seq_ck.map_or(Value::Null, |c| json!(c.as_str())));
+        m.insert("route".into(), route.map_or(Value::Null, |r| json!(r.as_str())));
+        m.insert("states".into(), Value::Array(states.iter().map(|s| s.to_json()).collect()));
+        if let Some((i, j)) = from_to {
+          m.insert("stamped_at".into(), json!(i));
+          m.insert("checked_at".into(), json!(j));
+          m.insert("s1".into(), states[i].to_json());
+          m.insert("s2".into(), states[j].to_json());
+        }
+      }
+    }
+    m.insert("expected".into(), json!(expected));
+    m.insert("observed".into(), json!(observed));
+    Value::Object(m)
+  }
+
+  fn from_replay(v: &Value) -> Result<Unit, String> {
+    let phase = v.get("phase").and_then(|p| p.as_str()).ok_or("replay without phase")?;
+    let ck = || v.get("checker").and_then(|c| c.as_str()).and_then(Ck::parse).ok_or_else(|| "replay without checker".to_string());
+    let route = || -> Result<Option<Route>, String> {
+      match v.get("route") {
+        None | Some(Value::Null) => Ok(None),
+        Some(r) => Ok(Some(r.as_str().and_then(Route::parse).ok_or_else(|| format!("bad route {}", r))?)),
+      }
+    };
+    match phase {
+      "write-open" => Ok(Unit::WriteOpen { prior: St::from_json(v.get("s1").ok_or("no s1")?)? }),
+      "untouched" => Ok(Unit::Pair { ck: ck()?, s1: St::from_json(v.get("s1").ok_or("no s1")?)?, s2: None, route: route()? }),
+      "pair" => Ok(Unit::Pair {
+        ck: ck()?, s1: St::from_json(v.get("s1").ok_or("no s1")?)?, s2: Some(St::from_json(v.get("s2").ok_or("no s2")?)?), route: route()?,
+      }),
+      "seq" => {
+        let arr = v.get("states").and_then(|s| s.as_array()).ok_or("no states")?;
+        if arr.len() != 3 { return Err("seq replay needs 3 states".into()); }
+        Ok(Unit::Seq { states: [St::from_json(&arr[0])?, St::from_json(&arr[1])?, St::from_json(&arr[2])?] })
+      }
+      o => Err(format!("unknown phase {}", o)),
+    }
+  }
+}
+
+// ---------------------------------------------------------------------------------------------------------------------
+// Running the real code
+// ---------------------------------------------------------------------------------------------------------------------
+
+thread_local! { static PIE_TIME: std::cell::Cell<Duration> = const { std::cell::Cell::new(Duration::ZERO) }; }
+
+/// Turns the outcome of a guarded pie call into a value, recording an error / panic as a finding.
+fn settle<T, E: std::fmt::Debug>(ctx: &mut Ctx, unit: &Unit, route: Option<Route>, op: &str, st: &St, r: Result<Result<T, E>, String>) -> Option<T> {
+  match r {
+    Ok(Ok(t)) => Some(t),
+    Ok(Err(e)) => {
+      ctx.tally.eval("C13/unexpected-error");
+      let obs = format!("{} returned Err({:?}) in state {}", op, e, st.to_json());
+      ctx.observe(|| obs.clone());
+      ctx.finding("C13/unexpected-error", obs.clone(), unit.replay(ctx.ck, route, None, "Ok(..)", &obs));
+      None
+    }
+    Err(p) => {
+      ctx.tally.eval("C13/panic");
+      let obs = format!("{} panicked in state {}: {}", op, st.to_json(), p);
+      ctx.observe(|| obs.clone());
+      ctx.finding("C13/panic", obs.clone(), unit.replay(ctx.ck, route, None, "no panic", &obs));
+      None
+    }
+  }
+}
+
+fn stamp_path<C: ResourceChecker<PathBuf>>(c: &C, ctx: &mut Ctx, unit: &Unit, st: &St) -> Option<C::Stamp> {
+  let path = ctx.path.clone();
+  let r = { let state = ctx.pie.resource_state_mut::<PathBuf>(); guard(|| c.stamp(&path, state)) };
+  let s = settle(ctx, unit, Some(Route::Path), "stamp", st, r);
+  ctx.observe(|| format!("stamp(path) in {} = {:?}", st.to_json(), s));
+  s
+}
+
+fn open_reader(ctx: &mut Ctx, unit: &Unit, st: &St) -> Option<OpenRead> {
+  let path = ctx.path.clone();
+  let r: Result<Result<OpenRead, FsError>, String> = { let state = ctx.pie.resource_state_mut::<PathBuf>(); guard(|| path.read(state)) };
+  let reader = settle(ctx, unit, Some(Route::Reader), "Resource::read", st, r)?;
+  // Oracle: the right `OpenRead` variant.
+  ctx.tally.eval("C13/read-variant");
+  let (ok, seen) = match (&reader, st) {
+    (OpenRead::NonExistent, St::Absent) => (true, "NonExistent".to_string()),
+    (OpenRead::File(_, m), St::File { size, .. }) => (m.is_file() && m.len() == *size as u64, format!("File(is_file={}, len={})", m.is_file(), m.len())),
+    (OpenRead::Directory(m), St::Dir { .. }) => (m.is_dir(), format!("Directory(is_dir={})", m.is_dir())),
+    (OpenRead::NonExistent, _) => (false, "NonExistent".into()),
+    (OpenRead::File(_, m), _) => (false, format!("File(len={})", m.len())),
+    (OpenRead::Directory(_), _) => (false, "Directory".into()),
+  };
+  ctx.observe(|| format!("read in {} = {}", st.to_json(), seen));
+  if !ok {
+    let what = format!("path.read in state {} yields {}", st.to_json(), seen);
+    ctx.finding("C13/read-variant", what, unit.replay(ctx.ck, Some(Route::Reader), None, st.kind().as_str(), &seen));
+  }
+  Some(reader)
+}
+
+fn stamp_reader<C: ResourceChecker<PathBuf>>(c: &C, ctx: &mut Ctx, unit: &Unit, st: &St) -> Option<C::Stamp> {
+  let path = ctx.path.clone();
+  let mut reader = open_reader(ctx, unit, st)?;
+  let r = guard(|| c.stamp_reader(&path, &mut reader));
+  let stamp = settle(ctx, unit, Some(Route::Reader), "stamp_reader", st, r)?;
+  ctx.observe(|| format!("stamp_reader in {} = {:?}", st.to_json(), stamp));
+  // Oracle: the same reader now yields the full content from offset 0.
+  if let St::File { .. } = st {
+    ctx.tally.eval("C13/reader-rewound");
+    let want = ctx.content_of(st);
+    let got = guard(|| {
+      let mut buf = Vec::new();
+      match reader.as_file() { Some(f) => f.read_to_end(&mut buf).map(|_| Some(buf)), None => Ok(None) }
+    });
+    let seen = match &got {
+      Ok(Ok(Some(buf))) if *buf == want => None,
+      Ok(Ok(Some(buf))) => {
+        let first = buf.iter().zip(want.iter()).position(|(a, b)| a != b);
+        Some(format!("reader yields {} bytes (first differing offset {:?}) instead of the {} bytes of the file", buf.len(), first, want.len()))
+      }
+      Ok(Ok(None)) => Some("reader is not a file".into()),
+      Ok(Err(e)) => Some(format!("reading failed: {}", e)),
+      Err(p) => Some(format!("reading panicked: {}", p)),
+    };
+    ctx.observe(|| format!("reader after stamp_reader: {:?}", seen));
+    if let Some(seen) = seen {
+      let what = format!("after stamp_reader the reader is not at the start: {}", seen);
+      ctx.finding("C13/reader-rewound", what, unit.replay(ctx.ck, Some(Route::Reader), None, "full content from offset 0", &seen));
+    }
+  }
+  Some(stamp)
+}
+
+/// `path.write(state)` through pie.
+fn open_writer(ctx: &mut Ctx, unit: &Unit, route: Option<Route>, st: &St) -> Option<File> {
+  let path = ctx.path.clone();
+  let r: Result<Result<File, FsError>, String> = { let state = ctx.pie.resource_state_mut::<PathBuf>(); guard(|| path.write(state)) };
+  settle(ctx, unit, route, "Resource::write", st, r)
+}
+
+/// Produces the file state `st` through a pie writer and returns the just-used writer. `junk_prior`: first put a
+/// larger junk file with the other mtime at the path (so that `write` has to truncate); otherwise the prior state is
+/// whatever non-directory is at the path. `Ok(None)`: a finding was recorded.
+fn produce_via_writer(ctx: &mut Ctx, unit: &Unit, st: &St, junk_prior: bool) -> H<Option<File>> {
+  let St::File { size, mt, .. } = st else { return Err("produce_via_writer on a non-file state".into()); };
+  let path = ctx.path.clone();
+  if junk_prior {
+    ctx.clear()?;
+    let mut f = io_ctx(File::create(&path), "create junk", &path)?;
+    io_ctx(f.write_all(&vec![0xEEu8; size + 7]), "write junk", &path)?;
+    io_ctx(f.set_modified(instant(1 - *mt)), "set_modified (junk)", &path)?;
+  } else if fs::symlink_metadata(&path).map(|m| m.is_dir()).unwrap_or(false) {
+    ctx.clear()?;
+  }
+  let Some(mut w) = open_writer(ctx, unit, Some(Route::Writer), st) else { return Ok(None); };
+  let bytes = ctx.content_of(st);
+  ctx.tally.eval("C13/write-produces-content");
+  if let Err(e) = w.write_all(&bytes).and_then(|_| w.flush()) {
+    let obs = format!("writing through the handle returned by path.write failed: {}", e);
+    ctx.observe(|| obs.clone());
+    ctx.finding("C13/write-produces-content", obs.clone(), unit.replay(ctx.ck, Some(Route::Writer), None, "writable handle", &obs));
+    return Ok(None);
+  }
+  // The mtime is part of the state: set it before the writer is stamped (T1 through the writer, T2 through a
+  // second handle).
+  if *mt == 0 {
+    io_ctx(w.set_modified(instant(*mt)), "set_modified (writer)", &path)?;
+  } else {
+    let h = io_ctx(File::options().write(true).open(&path), "open second handle", &path)?;
+    io_ctx(h.set_modified(instant(*mt)), "set_modified (second handle)", &path)?;
+  }
+  let on_disk = io_ctx(fs::read(&path), "read back", &path)?;
+  if on_disk != bytes {
+    let obs = format!("after path.write + write_all of {} bytes over a prior file the file holds {} bytes", bytes.len(), on_disk.len());
+    ctx.observe(|| obs.clone());
+    ctx.finding("C13/write-produces-content", obs.clone(), unit.replay(ctx.ck, Some(Route::Writer), None, "file holds exactly the written content", &obs));
+    return Ok(None);
+  }
+  ctx.verify_mtime(st)?;
+  ctx.tally.materialisations += 1;
+  if !ctx.tally.states.contains(st) { ctx.tally.states.insert(st.clone()); }
+  Ok(Some(w))
+}
+
+/// Makes the path absent the way a task would: create a writer, write, remove the file; returns the writer.
+fn produce_absent_via_writer(ctx: &mut Ctx, unit: &Unit) -> H<Option<File>> {
+  ctx.clear()?;
+  let path = ctx.path.clone();
+  let Some(mut w) = open_writer(ctx, unit, Some(Route::WriterRemoved), &St::Absent) else { return Ok(None); };
+  ctx.tally.eval("C13/write-produces-content");
+  if let Err(e) = w.write_all(b"written, then removed") {
+    let obs = format!("writing through the handle returned by path.write failed: {}", e);
+    ctx.observe(|| obs.clone());
+    ctx.finding("C13/write-produces-content", obs.clone(), unit.replay(ctx.ck, Some(Route::WriterRemoved), None, "writable handle", &obs));
+    return Ok(None);
+  }
+  // Explicit mtime on the doomed file: whatever a checker might read from the stale handle is deterministic.
+  io_ctx(w.set_modified(instant(1)), "set_modified (writer, to be removed)", &path)?;
+  io_ctx(fs::remove_file(&path), "remove written file", &path)?;
+  ctx.tally.materialisations += 1;
+  if !ctx.tally.states.contains(&St::Absent) { ctx.tally.states.insert(St::Absent); }
+  Ok(Some(w))
+}
+
+fn stamp_writer<C: ResourceChecker<PathBuf>>(c: &C, ctx: &mut Ctx, unit: &Unit, route: Route, st: &St, w: File) -> Option<C::Stamp> {
+  let path = ctx.path.clone();
+  let r = guard(|| c.stamp_writer(&path, w));
+  let s = settle(ctx, unit, Some(route), "stamp_writer", st, r);
+  ctx.observe(|| format!("stamp_writer({}) in {} = {:?}", route.as_str(), st.to_json(), s));
+  s
+}
+
+/// Oracle: two routes yield equal stamps for the same state.
+fn agree<S: PartialEq + std::fmt::Debug>(ctx: &mut Ctx, unit: &Unit, oracle: &'static str, st: &St, ra: Route, a: &Option<S>, rb: Route, b: &Option<S>) {
+  let (Some(a), Some(b)) = (a, b) else { return; };
+  ctx.tally.eval(oracle);
+  if a != b {
+    let what = format!("stamp routes disagree in state {}: {} gives {:?}, {} gives {:?}", st.to_json(), ra.as_str(), a, rb.as_str(), b);
+    ctx.finding(oracle, what, unit.replay(ctx.ck, Some(rb), None, &format!("{:?} (route {})", a, ra.as_str()), &format!("{:?}", b)));
+  }
+}
+
+/// Runs `check` of a stamp taken in `from` against the current state `to` and judges it with the reference relation.
+fn check_and_judge<C: ResourceChecker<PathBuf>>(
+  c: &C, ck: Ck, ctx: &mut Ctx, unit: &Unit, route: Route, from: &St, to: &St, untouched: bool, from_to: Option<(usize, usize)>, stamp: &C::Stamp,
+) {
+  let path = ctx.path.clone();
+  let r = {
+    let state = ctx.pie.resource_state_mut::<PathBuf>();
+    guard(|| c.check(&path, state, stamp).map(|o| o.map(|d| format!("{:?}", d))))
+  };
+  let Some(incons) = settle(ctx, unit, Some(route), "check", to, r) else { return; };
+  let consistent = incons.is_none();
+  let observed = match &incons { None => "consistent".to_string(), Some(d) => format!("inconsistent ({})", d) };
+  ctx.observe(|| format!("check[{}] {} -> {}{} = {}", route.as_str(), from.to_json(), to.to_json(), if untouched { " (untouched)" } else { "" }, observed));
+  let (expect, oracle) = reference(ck, from, to, untouched);
+  let verdict = judge(expect, consistent);
+  let t = &mut ctx.tally;
+  t.eval(oracle);
+  let cki = ck as usize;
+  match verdict {
+    Verdict::NotJudged => { t.not_judged += 1; t.outcomes[cki][OUT_NOT_JUDGED] += 1; }
+    _ => {
+      t.judged += 1;
+      if unit.phase() == PHASE_PAIR { t.pair_judged += 1; }
+      if from != to { t.nontrivial += 1; }
+      t.outcomes[cki][if consistent { OUT_CONSISTENT } else { OUT_INCONSISTENT }] += 1;
+    }
+  }
+  match expect {
+    Expect::ConsistentUnlessReordered => if consistent { t.recreated_dir_consistent += 1 } else { t.recreated_dir_inconsistent += 1 },
+    Expect::NotClaimed => t.kind_change[consistent as usize] += 1,
+    _ => {}
+  }
+  let key = (unit.phase(), ck, from.kind(), to.kind(), expect);
+  if t.samples.get(&key).map_or(true, |old| old.0 > ctx.order) {
+    let v = unit.replay(ctx.ck, Some(route), from_to, expect.as_str(), &observed);
+    ctx.tally.samples.insert(key, (ctx.order, v));
+  }
+  if verdict == Verdict::Violation {
+    if let (Ck::Hash, St::Dir { names: a, .. }, St::Dir { names: b, .. }) = (ck, from, to) {
+      if a != b { ctx.tally.collisions.insert((a.clone(), b.clone())); }
+    }
+    let what = format!(
+      "{} via {}: stamped in {}, checked in {}{}: expected {}, observed {}",
+      ck.as_str(), route.as_str(), from.to_json(), to.to_json(), if untouched { " (untouched)" } else { "" }, expect.as_str(), observed
+    );
+    ctx.finding(oracle, what, unit.replay(ctx.ck, Some(route), from_to, expect.as_str(), &observed));
+  }
+}
+
+/// Pair / untouched unit for one checker.
+fn run_pair<C>(c: &C, ck: Ck, ctx: &mut Ctx, unit: &Unit, s1: &St, s2: Option<&St>, only: Option<Route>) -> H<()>
+where C: ResourceChecker<PathBuf>, C::Stamp: PartialEq {
+  let want = |r: Route| only.map_or(true, |o| o == r) && r.applies(s1.kind());
+  ctx.ck = Some(ck);
+  let untouched = s2.is_none();
+  let target = s2.unwrap_or(s1);
+
+  if want(Route::Path) || want(Route::Reader) {
+    ctx.materialise(s1)?;
+    let sp = if want(Route::Path) { stamp_path(c, ctx, unit, s1) } else { None };
+    let sr = if want(Route::Reader) { stamp_reader(c, ctx, unit, s1) } else { None };
+    agree(ctx, unit, "C13/routes-agree", s1, Route::Path, &sp, Route::Reader, &sr);
+    if let Some(s2) = s2 { ctx.materialise(s2)?; }
+    if let Some(s) = &sp { check_and_judge(c, ck, ctx, unit, Route::Path, s1, target, untouched, None, s); }
+    if let Some(s) = &sr { check_and_judge(c, ck, ctx, unit, Route::Reader, s1, target, untouched, None, s); }
+  }
+
+  if want(Route::Writer) {
+    if let Some(w) = produce_via_writer(ctx, unit, s1, true)? {
+      // Reference stamp of the very same on-disk state, taken by path while the writer is still open.
+      let sp = stamp_path(c, ctx, unit, s1);
+      let sw = stamp_writer(c, ctx, unit, Route::Writer, s1, w);
+      agree(ctx, unit, "C13/routes-agree", s1, Route::Path, &sp, Route::Writer, &sw);
+      if let Some(s2) = s2 { ctx.materialise(s2)?; }
+      if let Some(s) = &sw { check_and_judge(c, ck, ctx, unit, Route::Writer, s1, target, untouched, None, s); }
+    }
+  }
+
+  if want(Route::WriterRemoved) {
+    if let Some(w) = produce_absent_via_writer(ctx, unit)? {
+      let sp = stamp_path(c, ctx, unit, s1);
+      let sw = stamp_writer(c, ctx, unit, Route::WriterRemoved, s1, w);
+      agree(ctx, unit, "C13/writer-removed-absent", s1, Route::Path, &sp, Route::WriterRemoved, &sw);
+      if let Some(s2) = s2 { ctx.materialise(s2)?; }
+      if let Some(s) = &sw { check_and_judge(c, ck, ctx, unit, Route::WriterRemoved, s1, target, untouched, None, s); }
+    }
+  }
+  Ok(())
+}
+
+/// One state of a sequence for one checker: stamp it by every applicable route (not at the last state), check the
+/// stamps of all earlier states against it.
+fn seq_step<C>(c: &C, ck: Ck, ctx: &mut Ctx, unit: &Unit, states: &[St; 3], j: usize, writer: Option<File>, live: &mut Vec<(usize, Route, C::Stamp)>)
+where C: ResourceChecker<PathBuf>, C::Stamp: PartialEq {
+  ctx.ck = Some(ck);
+  let st = &states[j];
+  let mut fresh: Vec<(usize, Route, C::Stamp)> = Vec::new();
+  if j < 2 {
+    let sp = stamp_path(c, ctx, unit, st);
+    let sr = stamp_reader(c, ctx, unit, st);
+    agree(ctx, unit, "C13/routes-agree", st, Route::Path, &sp, Route::Reader, &sr);
+    let wroute = if st.kind() == Kind::File { Route::Writer } else { Route::WriterRemoved };
+    let sw = writer.and_then(|w| stamp_writer(c, ctx, unit, wroute, st, w));
+    agree(ctx, unit, if wroute == Route::Writer { "C13/routes-agree" } else { "C13/writer-removed-absent" }, st, Route::Path, &sp, wroute, &sw);
+    if let Some(s) = sp { fresh.push((j, Route::Path, s)); }
+    if let Some(s) = sr { fresh.push((j, Route::Reader, s)); }
+    if let Some(s) = sw { fresh.push((j, wroute, s)); }
+  } else {
+    drop(writer);
+  }
+  for (i, route, stamp) in live.iter() { check_and_judge(c, ck, ctx, unit, *route, &states[*i], st, false, Some((*i, j)), stamp); }
+  live.extend(fresh);
+}
+
+/// Length-3 sequence. File states are produced through a pie writer over the previous state of the sequence, Absent
+/// through "writer created, file removed"; every state is materialised once and stamped by every applicable route of
+/// every checker (the writer is handed to `ExistsChecker` and `ModifiedChecker` as `try_clone`s of the handle, i.e.
+/// the same open file description, and to `HashChecker` itself); the stamps of earlier states are checked at every
+/// later state.
+fn run_seq(ctx: &mut Ctx, unit: &Unit, states: &[St; 3]) -> H<()> {
+  let (mut le, mut lm, mut lh) = (Vec::new(), Vec::new(), Vec::new());
+  ctx.ck = None;
+  ctx.clear()?; // the sequence starts from an absent path
+  for j in 0..3 {
+    let st = &states[j];
+    let writer = match st {
+      St::File { .. } => match produce_via_writer(ctx, unit, st, false)? { Some(w) => Some(w), None => return Ok(()) },
+      St::Absent => match produce_absent_via_writer(ctx, unit)? { Some(w) => Some(w), None => return Ok(()) },
+      St::Dir { .. } => { ctx.materialise(st)?; None }
+    };
+    let (w1, w2) = match &writer {
+      Some(w) => (Some(io_ctx(w.try_clone(), "dup writer", &ctx.path)?), Some(io_ctx(w.try_clone(), "dup writer", &ctx.path)?)),
+      None => (None, None),
+    };
+    seq_step(&ExistsChecker, Ck::Exists, ctx, unit, states, j, w1, &mut le);
+    seq_step(&ModifiedChecker, Ck::Modified, ctx, unit, states, j, w2, &mut lm);
+    seq_step(&HashChecker, Ck::Hash, ctx, unit, states, j, writer, &mut lh);
+  }
+  Ok(())
+}
+
+/// `Resource::write` on a prior state: creates / truncates (handle readable and writable) / refuses a directory.
+fn run_write_open(ctx: &mut Ctx, unit: &Unit, prior: &St) -> H<()> {
+  ctx.ck = None;
+  ctx.materialise_with(prior, true)?;
+  let path = ctx.path.clone();
+  let r: Result<Result<File, FsError>, String> = { let state = ctx.pie.resource_state_mut::<PathBuf>(); guard(|| path.write(state)) };
+  let r = match r {
+    Ok(r) => r,
+    Err(p) => { settle::<(), FsError>(ctx, unit, None, "Resource::write", prior, Err(p)); return Ok(()); }
+  };
+  match prior {
+    St::Dir { names, mt } => {
+      ctx.tally.eval("C13/write-refuses-dir");
+      let refused = r.is_err();
+      let meta = io_ctx(fs::metadata(&path), "stat", &path)?;
+      let listing = if meta.is_dir() { Ctx::listing(&path)? } else { Vec::new() };
+      let intact = meta.is_dir() && listing == *names && io_ctx(meta.modified(), "mtime", &path)? == instant(*mt);
+      let observed = format!("write -> {}, directory intact = {} (listing {:?})", match &r { Ok(_) => "Ok(file)".to_string(), Err(e) => format!("Err({:?})", e) }, intact, listing);
+      ctx.observe(|| observed.clone());
+      if !refused || !intact {
+        ctx.finding("C13/write-refuses-dir", format!("path.write on directory {}: {}", prior.to_json(), observed), unit.replay(ctx.ck, None, None, "Err(..) and directory intact", &observed));
+      }
+    }
+    St::Absent | St::File { .. } => {
+      let oracle = if *prior == St::Absent { "C13/write-creates" } else { "C13/write-truncates" };
+      ctx.tally.eval(oracle);
+      let mut w = match r {
+        Ok(w) => w,
+        Err(e) => {
+          let observed = format!("Err({:?})", e);
+          ctx.observe(|| observed.clone());
+          ctx.finding(oracle, format!("path.write on {} failed: {}", prior.to_json(), observed), unit.replay(ctx.ck, None, None, "Ok(empty file)", &observed));
+          return Ok(());
+        }
+      };
+      let observed = match fs::metadata(&path) {
+        Ok(m) => format!("is_file={} len={}", m.is_file(), m.len()),
+        Err(e) => format!("no file ({})", e.kind()),
+      };
+      ctx.observe(|| format!("write-open on {}: {}", prior.to_json(), observed));
+      if observed != "is_file=true len=0" {
+        ctx.finding(oracle, format!("after path.write on {} the path is: {}", prior.to_json(), observed), unit.replay(ctx.ck, None, None, "is_file=true len=0", &observed));
+      }
+      // The handle is writable and readable (checkers read the content through it).
+      ctx.tally.eval("C13/write-handle-rw");
+      let probe: &[u8] = b"probe: written through the pie writer";
+      let rw = (|| -> io::Result<(Vec<u8>, Vec<u8>)> {
+        w.seek(io::SeekFrom::End(0))?;
+        w.write_all(probe)?;
+        w.flush()?;
+        w.rewind()?;
+        let mut through_handle = Vec::new();
+        w.read_to_end(&mut through_handle)?;
+        Ok((through_handle, fs::read(&path)?))
+      })();
+      let observed = match &rw {
+        Ok((h, d)) if h.ends_with(probe) && h == d => None,
+        Ok((h, d)) => Some(format!("handle reads {} bytes, file holds {} bytes after writing a {} byte probe", h.len(), d.len(), probe.len())),
+        Err(e) => Some(format!("I/O through the handle failed: {}", e)),
+      };
+      ctx.observe(|| format!("write-handle-rw: {:?}", observed));
+      if let Some(observed) = observed {
+        ctx.finding("C13/write-handle-rw", format!("handle of path.write on {}: {}", prior.to_json(), observed), unit.replay(ctx.ck, None, None, "handle writable and readable", &observed));
+      }
+    }
+  }
+  Ok(())
+}
+
+fn run_unit(ctx: &mut Ctx, unit: &Unit) -> H<()> {
+  match unit {
+    Unit::WriteOpen { prior } => run_write_open(ctx, unit, prior),
+    Unit::Pair { ck, s1, s2, route } => match ck {
+      Ck::Exists => run_pair(&ExistsChecker, *ck, ctx, unit, s1, s2.as_ref(), *route),
+      Ck::Modified => run_pair(&ModifiedChecker, *ck, ctx, unit, s1, s2.as_ref(), *route),
+      Ck::Hash => run_pair(&HashChecker, *ck, ctx, unit, s1, s2.as_ref(), *route),
+    },
+    Unit::Seq { states } => run_seq(ctx, unit, states),
+  }
+}
+
+// ---------------------------------------------------------------------------------------------------------------------
+// Driver
+// ---------------------------------------------------------------------------------------------------------------------
+
+struct Plan {
+  alpha: Vec<St>,
+  seq_alpha: Vec<St>,
+  /// Start offsets of the phases in the flat item index space, plus the total as last element.
+  starts: [usize; 5],
+}
+
+impl Plan {
+  fn new(alpha: Vec<St>, seq_alpha: Vec<St>) -> Plan {
+    let n = alpha.len();
+    let m = seq_alpha.len();
+    let counts = [n, n * 3, n * n, m * m];
+    let mut starts = [0usize; 5];
+    for p in 0..4 { starts[p + 1] = starts[p] + counts[p]; }
+    Plan { alpha, seq_alpha, starts }
+  }
+  fn total(&self) -> usize { self.starts[4] }
+  fn items(&self, phase: usize) -> usize { self.starts[phase + 1] - self.starts[phase] }
+
+  /// Runs one work item (a batch of units); returns `Ok(false)` if stopped early.
+  fn run_item(&self, ctx: &mut Ctx, item: usize, stop: &AtomicBool) -> H<bool> {
+    let phase = (0..4).find(|p| item < self.starts[p + 1]).expect("item in range");
+    let idx = item - self.starts[phase];
+    let n = self.alpha.len();
+    let m = self.seq_alpha.len();
+    match phase as u8 {
+      PHASE_WRITE_OPEN => {
+        ctx.order = (phase as u64, idx as u64);
+        run_unit(ctx, &Unit::WriteOpen { prior: self.alpha[idx].clone() })?;
+      }
+      PHASE_UNTOUCHED => {
+        ctx.order = (phase as u64, idx as u64);
+        run_unit(ctx, &Unit::Pair { ck: Ck::ALL[idx % 3], s1: self.alpha[idx / 3].clone(), s2: None, route: None })?;
+      }
+      PHASE_PAIR => {
+        let (i, j) = (idx / n, idx % n);
+        for (k, ck) in Ck::ALL.into_iter().enumerate() {
+          ctx.order = (phase as u64, (idx * 3 + k) as u64);
+          run_unit(ctx, &Unit::Pair { ck, s1: self.alpha[i].clone(), s2: Some(self.alpha[j].clone()), route: None })?;
+        }
+      }
+      _ => {
+        let (i, j) = (idx / m, idx % m);
+        for l in 0..m {
+          if stop.load(Ordering::Relaxed) { return Ok(false); }
+          ctx.order = (phase as u64, (idx * m + l) as u64);
+          run_unit(ctx, &Unit::Seq { states: [self.seq_alpha[i].clone(), self.seq_alpha[j].clone(), self.seq_alpha[l].clone()] })?;
+        }
+      }
+    }
+    *ctx.tally.items_done.entry(PHASE_NAMES[phase]).or_insert(0) += 1;
+    Ok(true)
+  }
+}
+
+fn scratch_root() -> PathBuf { PathBuf::from(format!("{}/tmp/c13-{}", VERIF_DIR, std::process::id())) }
+
+fn cleanup(root: &Path) {
+  let _ = fs::remove_dir_all(root);
+}
+
+fn fail(root: &Path, msg: &str) -> ! {
+  cleanup(root);
+  engine_error(msg)
+}
+
+/// Verifies that this file system supports what the state alphabet needs (explicit mtimes on files and directories).
+fn preflight(root: &Path) -> H<()> {
+  let mut ctx = Ctx::new(&root.join("preflight"), false)?;
+  for st in [
+    St::File { size: 1, var: Variant::Base, mt: 0 }, St::File { size: 1, var: Variant::Base, mt: 1 },
+    St::Dir { names: vec!["a".into()], mt: 0 }, St::Dir { names: vec!["a".into()], mt: 1 }, St::Absent,
+  ] { ctx.materialise_with(&st, true)?; ctx.materialise(&st)?; }
+  ctx.verify_pool()
+}
+
+/// Removes the scratch directory also when the harness unwinds.
+struct ScratchGuard(PathBuf);
+impl Drop for ScratchGuard { fn drop(&mut self) { cleanup(&self.0); } }
+
+pub fn run(args: &Args) -> i32 {
+  let root = scratch_root();
+  let _guard = ScratchGuard(root.clone());
+  cleanup(&root);
+  if let Err(e) = fs::create_dir_all(&root) { engine_error(&format!("cannot create scratch dir {}: {}", root.display(), e)); }
+  if let Err(e) = preflight(&root) { fail(&root, &format!("C13 preflight: {}", e)); }
+  let code = match &args.replay {
+    Some(file) => run_replay(args, file, &root),
+    None => run_enumeration(args, &root),
+  };
+  cleanup(&root);
+  code
+}
+
+fn run_enumeration(args: &Args, root: &Path) -> i32 {
+  let mut rep = Report::new(args);
+  rep.max_violations = 12;
+  let sets = name_sets();
+  let (sizes, wall_cap) = match args.tier { Tier::Quick => (QUICK_SIZES, 22.0), Tier::Thorough => (FULL_SIZES, 570.0) };
+  let alpha = alphabet(sizes, &sets);
+  let seq_alpha = match args.tier { Tier::Quick => core_alphabet(), Tier::Thorough => alpha.clone() };
+  let plan = Plan::new(alpha, seq_alpha);
+
+  let threads = args.extra.iter().find_map(|a| a.strip_prefix("threads=").and_then(|n| n.parse::<usize>().ok()))
+    .unwrap_or_else(|| std::thread::available_parallelism().map(|n| n.get()).unwrap_or(4)).clamp(1, 16);
+  let next = AtomicUsize::new(0);
+  let stop = AtomicBool::new(false);
+  let capped = AtomicBool::new(false);
+  let error: Mutex<Option<String>> = Mutex::new(None);
+  let start = Instant::now();
+  let mut total = Tally::default();
+
+  let results: Vec<Result<Tally, String>> = std::thread::scope(|scope| {
+    let handles: Vec<_> = (0..threads).map(|w| {
+      let (plan, next, stop, capped, error) = (&plan, &next, &stop, &capped, &error);
+      let dir = root.join(format!("w{}", w));
+      scope.spawn(move || -> Result<Tally, String> {
+        let mut ctx = Ctx::new(&dir, false)?;
+        loop {
+          if stop.load(Ordering::Relaxed) { break; }
+          if start.elapsed().as_secs_f64() > wall_cap { capped.store(true, Ordering::Relaxed); stop.store(true, Ordering::Relaxed); break; }
+          let item = next.fetch_add(1, Ordering::Relaxed);
+          if item >= plan.total() { break; }
+          if let Err(e) = plan.run_item(&mut ctx, item, stop) {
+            stop.store(true, Ordering::Relaxed);
+            let mut g = error.lock().unwrap_or_else(|p| p.into_inner());
+            if g.is_none() { *g = Some(e.clone()); }
+            return Err(e);
+          }
+        }
+        ctx.verify_pool()?;
+        ctx.tally.t_pie = PIE_TIME.with(|c| c.get());
+        Ok(ctx.tally)
+      })
+    }).collect();
+    handles.into_iter().map(|h| match h.join() {
+      Ok(r) => r,
+      Err(p) => Err(format!("harness worker panicked: {}", p.downcast_ref::<String>().cloned().or_else(|| p.downcast_ref::<&str>().map(|s| s.to_string())).unwrap_or_default())),
+    }).collect()
+  });
+  for r in results {
+    match r { Ok(t) => total.merge(t), Err(e) => fail(root, &format!("C13: {}", e)) }
+  }
+  if let Some(e) = error.lock().unwrap_or_else(|p| p.into_inner()).take() { fail(root, &format!("C13: {}", e)); }
+
+  let capped = capped.load(Ordering::Relaxed);
+  let done = |p: usize| total.items_done.get(PHASE_NAMES[p]).copied().unwrap_or(0);
+  let exhaustive = !capped && (0..4).all(|p| done(p) as usize == plan.items(p));
+
+  // Findings: smallest first, at most two per oracle.
+  total.findings.sort_by(|a, b| (a.order, a.oracle).cmp(&(b.order, b.oracle)));
+  let mut per_oracle: BTreeMap<&'static str, usize> = BTreeMap::new();
+  let mut all_per_oracle: BTreeMap<&'static str, u64> = BTreeMap::new();
+  for f in &total.findings {
+    *all_per_oracle.entry(f.oracle).or_insert(0) += 1;
+    let n = per_oracle.entry(f.oracle).or_insert(0);
+    if *n >= 2 { continue; }
+    *n += 1;
+    rep.violation(Violation { property: "C13".into(), oracle: f.oracle.into(), key: String::new(), what: f.what.clone(), replay: f.replay.clone() });
+  }
+
+  let n = plan.alpha.len();
+  // Samples: for every (checker, expectation) class the two smallest recorded cases of each phase.
+  let samples: Vec<Value> = {
+    let mut groups: BTreeMap<(u8, Ck, Expect), Vec<((u64, u64), Value)>> = BTreeMap::new();
+    for ((phase, ck, _, _, expect), v) in &total.samples { groups.entry((*phase, *ck, *expect)).or_default().push(v.clone()); }
+    let mut out = Vec::new();
+    for (_, mut g) in groups {
+      g.sort_by(|a, b| a.0.cmp(&b.0));
+      // Prefer cases whose two states differ.
+      g.sort_by_key(|x| x.1.get("s1") == x.1.get("s2") || x.1.get("s2") == Some(&json!("untouched")));
+      out.extend(g.into_iter().take(2).map(|x| x.1));
+    }
+    out
+  };
+  let outcomes = |c: Ck| json!({
+    "consistent": total.outcomes[c as usize][OUT_CONSISTENT],
+    "inconsistent": total.outcomes[c as usize][OUT_INCONSISTENT],
+    "not_judged": total.outcomes[c as usize][OUT_NOT_JUDGED],
+  });
+  rep.set("states", json!(total.states.len()));
+  rep.set("alphabet_states", json!(n));
+  rep.set("materialisations", json!(total.materialisations));
+  rep.set("transitions", json!(total.pair_judged));
+  rep.set("traces_validated_against_impl", json!(total.judged));
+  rep.set("not_judged", json!(total.not_judged));
+  rep.set("evaluations", json!(total.evaluations));
+  rep.set("evaluations_per_oracle", json!(total.per_oracle));
+  rep.set("distinct_nontrivial", json!(total.nontrivial));
+  rep.set("distinct_outcomes", json!({
+    "ExistsChecker": outcomes(Ck::Exists), "ModifiedChecker": outcomes(Ck::Modified), "HashChecker": outcomes(Ck::Hash),
+    "hash_recreated_same_nameset_dir": {"consistent": total.recreated_dir_consistent, "inconsistent_not_judged": total.recreated_dir_inconsistent},
+    "hash_file_dir_kind_change_not_judged": {"inconsistent": total.kind_change[0], "consistent": total.kind_change[1]},
+  }));
+  rep.set("hash_dir_collisions", json!(total.collisions.iter().map(|(a, b)| json!({"stamped": a, "checked": b})).collect::<Vec<_>>()));
+  rep.set("findings_per_oracle", json!(all_per_oracle));
+  rep.set("findings_beyond_worker_cap", json!(total.findings_dropped));
+  rep.set("samples", Value::Array(samples));
+  rep.set("exhaustive", json!(exhaustive));
+  rep.set("work_items", json!({
+    "write-open": {"done": done(0), "of": plan.items(0)},
+    "untouched": {"done": done(1), "of": plan.items(1)},
+    "pair": {"done": done(2), "of": plan.items(2)},
+    "seq": {"done": done(3), "of": plan.items(3), "sequences_per_item": plan.seq_alpha.len()},
+  }));
+  rep.set("threads", json!(threads));
+  rep.set("cpu_seconds", json!({"materialise": total.t_materialise.as_secs_f64(), "calls_into_pie": total.t_pie.as_secs_f64()}));
+  rep.set("rule", json!(
+    "every state P of the alphabet: path.write on P; every (S1, checker, route): stamp then check untouched; every ordered \
+     pair (S1,S2) x {Exists,Modified,Hash} x routes {path, fresh reader, writer that produced S1 (files), writer whose file \
+     was removed (absent)}: materialise S1 on the real file system, stamp, materialise S2, check, compare with the \
+     reference relation; every length-3 sequence over the sequence alphabet with stamps of earlier states checked at later \
+     ones; smallest states first"));
+  rep.set("bounds", json!({
+    "file_sizes": sizes, "content_variants": ["base", "last-byte-differs", "first-byte-differs (size >= 2)"],
+    "dir_name_pool": NAME_POOL, "dir_max_names": MAX_NAMES, "dir_name_sets": sets.len(),
+    "mtimes_unix_s": T_SECS, "pair_alphabet": n, "sequence_alphabet": plan.seq_alpha.len(), "sequence_length": 3,
+    "wall_cap_s": wall_cap, "file_system_dir": root.parent().map(|p| p.display().to_string()),
+  }));
+  rep.assume("entry names are ASCII names from the pool; directory entries are empty regular files");
+  rep.assume("hash checker: file<->directory changes and re-created directories with the same name set are recorded, not judged");
+  rep.finish()
+}
+
+fn run_replay(args: &Args, file: &Path, root: &Path) -> i32 {
+  let text = match fs::read_to_string(file) { Ok(t) => t, Err(e) => { cleanup(root); eprintln!("cannot read {}: {}", file.display(), e); return 2; } };
+  let v: Value = match serde_json::from_str(&text) { Ok(v) => v, Err(e) => { cleanup(root); eprintln!("{} does not parse: {}", file.display(), e); return 2; } };
+  let replay = v.get("replay").unwrap_or(&v);
+  let unit = match Unit::from_replay(replay) { Ok(u) => u, Err(e) => { cleanup(root); eprintln!("bad replay {}: {}", file.display(), e); return 2; } };
+  let mut runs: Vec<(Vec<String>, Vec<Finding>)> = Vec::new();
+  for k in 0..2 {
+    let mut ctx = match Ctx::new(&root.join(format!("replay{}", k)), true) { Ok(c) => c, Err(e) => fail(root, &e) };
+    if let Err(e) = run_unit(&mut ctx, &unit).and_then(|_| ctx.verify_pool()) { fail(root, &format!("C13 replay: {}", e)); }
+    runs.push((ctx.observations.take().unwrap_or_default(), ctx.tally.findings));
+  }
+  if runs[0].0 != runs[1].0 {
+    let diff = runs[0].0.iter().zip(runs[1].0.iter()).find(|(a, b)| a != b).map(|(a, b)| format!("{} / {}", a, b)).unwrap_or_else(|| "different lengths".into());
+    fail(root, &format!("C13 replay is not reproducible: {}", diff));
+  }
+  let _ = args;
+  let findings = &runs[0].1;
+  if findings.is_empty() {
+    println!("replay: no violation");
+    return 0;
+  }
+  for f in findings {
+    println!("VIOLATION property=C13 replay={}", file.display());
+    println!("  oracle={} key= what={}", f.oracle, f.what);
+  }
+  1
+}
+
+// ---------------------------------------------------------------------------------------------------------------------
+// Unit tests of the reference relations
+// ---------------------------------------------------------------------------------------------------------------------
+
+#[cfg(test)]
+mod test {
+  use super::*;
+
+  fn f(size: usize, var: Variant, mt: u8) -> St { St::File { size, var, mt } }
+  fn d(names: &[&str], mt: u8) -> St { let mut n: Vec<String> = names.iter().map(|s| s.to_string()).collect(); n.sort(); St::Dir { names: n, mt } }
+
+  #[test]
+  fn alphabet_sizes() {
+    let sets = name_sets();
+    assert_eq!(sets.len(), 42);
+    assert_eq!(sets[0], Vec::<String>::new());
+    assert!(sets.windows(2).all(|w| w[0].len() <= w[1].len()));
+    assert_eq!(alphabet(QUICK_SIZES, &sets).len(), 1 + (1 + 2 + 3 + 3) * 2 + 84);
+    assert_eq!(alphabet(FULL_SIZES, &sets).len(), 1 + (1 + 2 + 3 * 5) * 2 + 84);
+    let a = alphabet(FULL_SIZES, &sets);
+    let distinct: BTreeSet<&St> = a.iter().collect();
+    assert_eq!(distinct.len(), a.len());
+  }
+
+  #[test]
+  fn contents_differ_where_they_should() {
+    for &s in FULL_SIZES {
+      let b = content(s, Variant::Base);
+      assert_eq!(b.len(), s);
+      if s >= 1 {
+        let l = content(s, Variant::LastDiffers);
+        assert_eq!(b[..s - 1], l[..s - 1]);
+        assert_ne!(b[s - 1], l[s - 1]);
+      }
+      if s >= 2 {
+        let fi = content(s, Variant::FirstDiffers);
+        assert_eq!(b[1..], fi[1..]);
+        assert_ne!(b[0], fi[0]);
+        assert_ne!(fi, content(s, Variant::LastDiffers));
+      }
+    }
+  }
+
+  #[test]
+  fn exists_relation() {
+    let e = |a: &St, b: &St| reference(Ck::Exists, a, b, false).0;
+    assert_eq!(e(&St::Absent, &St::Absent), Expect::Consistent);
+    assert_eq!(e(&St::Absent, &f(0, Variant::Base, 0)), Expect::Inconsistent);
+    assert_eq!(e(&d(&[], 0), &St::Absent), Expect::Inconsistent);
+    assert_eq!(e(&d(&["a"], 0), &f(1, Variant::Base, 1)), Expect::Consistent);
+    assert_eq!(e(&f(1, Variant::Base, 0), &f(8193, Variant::LastDiffers, 1)), Expect::Consistent);
+  }
+
+  #[test]
+  fn modified_relation() {
+    let m = |a: &St, b: &St| reference(Ck::Modified, a, b, false).0;
+    assert_eq!(m(&St::Absent, &St::Absent), Expect::Consistent);
+    assert_eq!(m(&St::Absent, &f(0, Variant::Base, 0)), Expect::Inconsistent);
+    assert_eq!(m(&f(0, Variant::Base, 0), &St::Absent), Expect::Inconsistent);
+    // Same explicit mtime, different content: consistent by documentation (observes only the mtime).
+    assert_eq!(m(&f(1, Variant::Base, 0), &f(1, Variant::LastDiffers, 0)), Expect::Consistent);
+    assert_eq!(m(&f(1, Variant::Base, 0), &f(1, Variant::Base, 1)), Expect::Inconsistent);
+    assert_eq!(m(&f(1, Variant::Base, 1), &d(&["a"], 1)), Expect::Consistent);
+    assert_eq!(m(&d(&["a"], 0), &d(&["a"], 1)), Expect::Inconsistent);
+  }
+
+  #[test]
+  fn hash_relation() {
+    let h = |a: &St, b: &St| reference(Ck::Hash, a, b, false);
+    assert_eq!(h(&St::Absent, &St::Absent).0, Expect::Consistent);
+    assert_eq!(h(&St::Absent, &d(&[], 0)).0, Expect::Inconsistent);
+    assert_eq!(h(&f(0, Variant::Base, 0), &St::Absent).0, Expect::Inconsistent);
+    assert_eq!(h(&f(8193, Variant::Base, 0), &f(8193, Variant::Base, 1)).0, Expect::Consistent);
+    assert_eq!(h(&f(8193, Variant::Base, 0), &f(8193, Variant::LastDiffers, 0)), (Expect::Inconsistent, "C13/hash-file-content"));
+    assert_eq!(h(&f(8192, Variant::Base, 0), &f(8193, Variant::Base, 0)).0, Expect::Inconsistent);
+    assert_eq!(h(&f(0, Variant::Base, 0), &d(&[], 0)).0, Expect::NotClaimed);
+    assert_eq!(h(&d(&["a"], 0), &f(1, Variant::Base, 0)).0, Expect::NotClaimed);
+    assert_eq!(h(&d(&["a", "b"], 0), &d(&["ab"], 0)), (Expect::Inconsistent, "C13/hash-dir-nameset"));
+    assert_eq!(h(&d(&["a", "b"], 0), &d(&["ba"], 1)).0, Expect::Inconsistent);
+    assert_eq!(h(&d(&["a", "b"], 0), &d(&["b", "a"], 1)).0, Expect::ConsistentUnlessReordered);
+    assert_eq!(h(&d(&[], 0), &d(&[], 0)).0, Expect::ConsistentUnlessReordered);
+  }
+
+  #[test]
+  fn untouched_is_always_consistent() {
+    for ck in Ck::ALL {
+      for s in alphabet(QUICK_SIZES, &name_sets()) { assert_eq!(reference(ck, &s, &s, true).0, Expect::Consistent); }
+    }
+  }
+
+  #[test]
+  fn judging() {
+    assert_eq!(judge(Expect::Consistent, true), Verdict::Agree);
+    assert_eq!(judge(Expect::Consistent, false), Verdict::Violation);
+    assert_eq!(judge(Expect::Inconsistent, false), Verdict::Agree);
+    assert_eq!(judge(Expect::Inconsistent, true), Verdict::Violation);
+    assert_eq!(judge(Expect::ConsistentUnlessReordered, true), Verdict::Agree);
+    assert_eq!(judge(Expect::ConsistentUnlessReordered, false), Verdict::NotJudged);
+    assert_eq!(judge(Expect::NotClaimed, true), Verdict::NotJudged);
+    assert_eq!(judge(Expect::NotClaimed, false), Verdict::NotJudged);
+  }
+
+  #[test]
+  fn state_json_round_trip() {
+    for s in alphabet(FULL_SIZES, &name_sets()) { assert_eq!(St::from_json(&s.to_json()).unwrap(), s); }
+    let u = Unit::Pair { ck: Ck::Hash, s1: d(&["ba"], 0), s2: Some(d(&["a", "b"], 0)), route: None };
+    let r = u.replay(None, Some(Route::Path), None, "inconsistent", "consistent");
+    match Unit::from_replay(&r).unwrap() {
+      Unit::Pair { ck: Ck::Hash, s1, s2: Some(s2), route: Some(Route::Path) } => { assert_eq!(s1, d(&["ba"], 0)); assert_eq!(s2, d(&["a", "b"], 0)); }
+      o => panic!("{:?}", o),
+    }
+  }
+
+  #[test]
+  fn routes_apply() {
+    assert!(Route::Writer.applies(Kind::File) && !Route::Writer.applies(Kind::Dir) && !Route::Writer.applies(Kind::Absent));
+    assert!(Route::WriterRemoved.applies(Kind::Absent) && !Route::WriterRemoved.applies(Kind::File));
+    assert!(Route::Path.applies(Kind::Dir) && Route::Reader.applies(Kind::Dir));
+  }
+}
